@@ -1165,9 +1165,15 @@ def gen_C19(seed, tier):
         names = [fr["name"] for fr in d.frames]
         for nm in names[:3] + ["ROOT", "nosuchbody"]:
             text.append("getid %s" % nm)
+        tail = ["dump", "params"] + ["getid %s" % nm for nm in names[:3] + ["ROOT", "nosuchbody"]]
         if mb.nv > 0:
-            text += mb.state_lines() + ["call ID", "call CRBA 1", "call NE"]
+            dyn = mb.state_lines() + ["call ID", "call CRBA 1", "call NE"]
+            text += dyn
+            tail += dyn
         out += text
+        # the same mechanism built through the API by the implementation itself
+        out += ["case c19api_%d" % i] + ([("gravity %s" % G.frs(d.gravity))] if d.gravity is not None else []) + mb.lines + tail
+        out.append("#twinall %s c19api_%d" % (cid, i))
         g.stats["order:" + order] += 1
         for fr in d.frames:
             g.stats["frame-joint:" + (fr["joint"][0] + (":" + fr["joint"][1] if fr["joint"][0] != "axes" else ":%d" % len(fr["joint"][1])))] += 1
